@@ -60,8 +60,9 @@ def judge(ctx, log, label):
                 nstruct += 1
                 continue
             sb = stray_before(r["ev"], l)
+            cleared = any(e["op"] == "clear" for e in r["ev"][:l])      # a clear() leaves the watches of the dropped requests armed
             for c in real:
-                ctx.reject(dict(clause=c, source=label, stray_bind_before=sb), dict(steps=steps_of(r["ev"][:l])),
+                ctx.reject(dict(clause=c, source=label, stray_bind_before=sb, clear_before=cleared), dict(steps=steps_of(r["ev"][:l])),
                            "%s history, call %d (%s): %s%s" % (label, l, steps_of(r["ev"][l - 1:l])[0], c,
                                 " after a bind that answers no use-CC was delivered while a controller was pending" if sb else ""))
     if nstruct:
